@@ -333,6 +333,7 @@ CHECK = Check(
         "patterns with first and last bit set at any bit offset must raise ValueError. "
         "Non-trivial = chunk carries a non-empty list/params or a byte field whose length is not "
         "a multiple of 4, or any burst case; distinct by SHA-1 of the case."
+        " Bursts computed from the packet that leave 0 / all ones / the byte-swapped value / value+1 / the verification tag in the checksum field; every chunk object is serialised a second time after all its fields changed and must serialise like a fresh object."
     ),
     families=[
         Family("roundtrip", run_roundtrip, lambda tier: chunk_spec(tier), quick=12000, thorough=600000),
